@@ -122,6 +122,7 @@ def handle (f : List String) : String :=
         if op = "load" then (e', acc.2 ++ [dump e']) else (e', acc.2)) ({}, [])
       " || ".intercalate (outs ++ [dump e])
   | "conc" :: _ => "-"
+  | "rterr" :: _ => "-"
   | _ => "BAD-CASE"
 
 end MtailVerif.Driver.Rt
